@@ -284,7 +284,12 @@ impl<W: AsRef<[u64]>> JsonIndex<W> {
             return None;
         }
 
-        let k32 = k as u32;
+        // `ib_rank` holds u32 counts, so no index has 2^32 or more interest
+        // bits; a larger `k` is out of range (a plain `k as u32` would wrap
+        // and select some unrelated earlier bit).
+        let Ok(k32) = u32::try_from(k) else {
+            return None;
+        };
         let n = words.len();
 
         // #40: count `ib_rank` probes so this path's cost can be compared with
@@ -402,7 +407,12 @@ impl<W: AsRef<[u64]>> JsonIndex<W> {
             return None;
         }
 
-        let k32 = k as u32;
+        // `ib_rank` holds u32 counts, so no index has 2^32 or more interest
+        // bits; a larger `k` is out of range (a plain `k as u32` would wrap
+        // and select some unrelated earlier bit).
+        let Ok(k32) = u32::try_from(k) else {
+            return None;
+        };
         let n = words.len();
 
         // Binary search over all words
